@@ -1531,6 +1531,9 @@ func c18NoEarlySuccess(c *Ctx) {
 				return true
 			case *ast.Ident:
 				if isNilIdent(info, x) {
+					if c18EarlyNilConcernsTheRest(info, pm, fi.Decl.Body, r) {
+						return true
+					}
 					bad = "`return nil` at " + c.P.Pos(r.Pos())
 					return true
 				}
@@ -1743,4 +1746,100 @@ func c18Round5(c *Ctx) {
 		c.Check(okV, R, "Render:the rendered server definition is validated as a whole", rd.Decl.Pos(), "validate() on the value handed to newFailoverGroup",
 			"the PrometheusConfig that PrometheusTemplate.Render turns into a failover group is not validated after it was filled (include/exclude/tags rendered from discovered data): a pattern that is not a regexp reaches regexp.MustCompile in newFailoverGroup and panics")
 	}
+}
+
+// c18EarlyNilConcernsTheRest accepts `if X.f == "" { return nil }` as a statement of the function body when
+// everything that can still be rejected after it depends on X.f: every later return of an error stands under
+// a condition that reads X.f or a local computed from it (`sev, err := Parse(X.f)`). That is the early-return
+// spelling of `if X.f != "" { … }; return nil` as the last check of the function; an attribute that does not
+// depend on X.f and is checked further down makes it a real early acceptance.
+func c18EarlyNilConcernsTheRest(info *types.Info, pm map[ast.Node]ast.Node, body *ast.BlockStmt, r *ast.ReturnStmt) bool {
+	blk, ok := pm[r].(*ast.BlockStmt)
+	if !ok || len(blk.List) != 1 {
+		return false
+	}
+	ifs, ok := pm[blk].(*ast.IfStmt)
+	if !ok || ifs.Body != blk || ifs.Else != nil || ifs.Init != nil || pm[ifs] != ast.Node(body) {
+		return false
+	}
+	if l := body.List; len(l) == 0 {
+		return false
+	} else if last, isRet := l[len(l)-1].(*ast.ReturnStmt); !isRet || len(last.Results) != 1 || !isNilIdent(info, last.Results[0]) {
+		return false
+	}
+	// the subject: field paths the condition reads
+	subject := map[string]bool{}
+	ast.Inspect(ifs.Cond, func(n ast.Node) bool {
+		if sel, ok := n.(*ast.SelectorExpr); ok {
+			if _, path, ok := accessPath(info, sel); ok && path != "" {
+				subject[exprStr(sel)] = true
+				return false
+			}
+		}
+		return true
+	})
+	if len(subject) == 0 {
+		return false
+	}
+	derived := map[types.Object]bool{}
+	reads := func(e ast.Node) bool {
+		hit := false
+		ast.Inspect(e, func(n ast.Node) bool {
+			switch x := n.(type) {
+			case *ast.SelectorExpr:
+				if subject[exprStr(x)] {
+					hit = true
+					return false
+				}
+			case *ast.Ident:
+				if o := info.Uses[x]; o != nil && derived[o] {
+					hit = true
+				}
+			}
+			return true
+		})
+		return hit
+	}
+	for round := 0; round < 4; round++ {
+		ast.Inspect(body, func(n ast.Node) bool {
+			as, ok := n.(*ast.AssignStmt)
+			if !ok || as.Pos() < ifs.End() {
+				return true
+			}
+			any := false
+			for _, rh := range as.Rhs {
+				if reads(rh) {
+					any = true
+				}
+			}
+			if any {
+				for _, l := range as.Lhs {
+					if o, isVar := objOf(info, l).(*types.Var); isVar && !o.IsField() {
+						derived[o] = true
+					}
+				}
+			}
+			return true
+		})
+	}
+	ok = true
+	nLater := 0
+	inspectNoLit(body, func(n ast.Node) bool {
+		r2, isRet := n.(*ast.ReturnStmt)
+		if !isRet || r2.Pos() < ifs.End() || ast.Stmt(r2) == body.List[len(body.List)-1] {
+			return true
+		}
+		nLater++
+		dep := false
+		for _, g := range lexicalGuards(pm, r2, body) {
+			if reads(g.E) {
+				dep = true
+			}
+		}
+		if !dep {
+			ok = false
+		}
+		return true
+	})
+	return ok && nLater > 0
 }
